@@ -201,6 +201,59 @@ def rule_retry_loop(ctx: Ctx, out: Collector) -> None:
     else:
         out.bad('RT-2', cons, ctx.p.loc(unit, tr), 'the handlers around the node invocation do not match the policy: ' + '; '.join(problems))
 
+    # ---- RT-2b: errors outside Exception that the policy's filter may name are re-raised before anything else
+    cons2 = base + '::non-Exception errors caught by the policy handler are re-raised at once'
+    if handlers:
+        h1 = handlers[0]
+        hev1 = [ev for ev in g.events('handler') if ev.node is h1 and ev.inst.parent is None]
+        if hev1 and h1.name:
+            s_ = Search(ctx.p, g, EXC_LABELS)
+
+            def estep_b(prev, lab, e, state, facts, hname=h1.name):
+                if prev is not None and prev.kind == 'branch' and lab in ('T', 'F') and prev.info.get('test') is not None:
+                    parts = []
+                    decompose(prev.info['test'], lab == 'T', parts)
+                    for gx, pol_ in parts:
+                        if pol_ and isinstance(gx, ast.Call) and isinstance(gx.func, ast.Name) and gx.func.id == 'isinstance' \
+                                and len(gx.args) == 2 and isinstance(gx.args[0], ast.Name) and gx.args[0].id == hname \
+                                and (dotted(gx.args[1]) or '').split('.')[-1] == 'Exception':
+                            return 1
+                return state
+
+            def goal_b(e, st, f):
+                if st != 0:
+                    return False
+                if e.id == head.id:
+                    return True
+                if e.kind == 'await':
+                    return True
+                if e.kind == 'call' and (ctx.roles.body(e) or ctx.roles.sleep(e) or ctx.roles.collab(e)):
+                    return True
+                return False
+            resb = s_.run([(hev1[0].id, 0, frozenset())], None, goal_b, edge_step=estep_b)
+            if resb is None:
+                out.ok('RT-2', cons2, ctx.p.loc(unit, h1), 'the handler continues only for instances of Exception')
+            else:
+                out.bad('RT-2', cons2, ctx.p.loc(unit, h1),
+                        'the retry setting may name BaseException classes (RetryProtocol.exceptions), and the handler of the policy\'s '
+                        'filter treats whatever it caught as a retryable failure: the CancelledError that ends a run (or KeyboardInterrupt) '
+                        'is answered with on_node_complete, a sleep and a new attempt - BaseExceptions outside Exception must be neither '
+                        'retried nor defaulted', path_text(g, resb[0]), props={'C12', 'C13'})
+
+    # ---- RT-7: the default value is never produced inside the protected region of the retry loop
+    cons7 = base + '::get_default is not run under the retry handlers'
+    bad7 = []
+    for c in dflt_calls:
+        in_try_body = any(c is x for b_ in tr.body for x in ast.walk(b_))
+        if in_try_body:
+            bad7.append(text(c))
+    if not bad7:
+        out.ok('RT-7', cons7, ctx.p.loc(unit, tr), 'every default invocation lies outside the try body the retry handlers protect')
+    else:
+        out.bad('RT-7', cons7, ctx.p.loc(unit, tr),
+                f'{bad7[0]} is evaluated inside the try whose handlers retry / default: a failing get_default is retried like a node '
+                f'attempt (attempts + 1 calls, with delays) or called a second time by the handlers')
+
     # ---- RT-3 argument agreement
     kw = unit.node.args.kwarg.arg if unit.node.args.kwarg else None
     cons = base + '::get_default receives the same keyword arguments as the body'
